@@ -1,0 +1,16 @@
+//go:build verif
+
+package bitmap1024
+
+import "github.com/pinealctx/neptune/bitmap1024/internal"
+
+// VerifSetSparseMagic sets the sparse/dense traversal threshold of the Bit64 iterators
+// (the setter lives in an internal package); verification hook, build tag `verif`.
+func VerifSetSparseMagic(n int32) {
+	internal.SetSparseMagic(n)
+}
+
+// VerifSparseMagic reads the current threshold (verification hook, build tag `verif`).
+func VerifSparseMagic() int32 {
+	return internal.VerifSparseMagic()
+}
